@@ -114,7 +114,15 @@ fn pkt_line(sink: &mut Sink, d: usize, input: &[u8]) {
     sink.line(&op, &obs);
 }
 
-fn site(msg: &str) -> String { msg.chars().take(48).collect::<String>().replace(':', ".") }
+/// panic message -> signature fragment: digits folded (lengths / indices vary with the input), 48 chars
+fn site(msg: &str) -> String {
+    let mut out = String::new();
+    let mut last_digit = false;
+    for c in msg.chars() {
+        if c.is_ascii_digit() { if !last_digit { out.push('#'); } last_digit = true; } else { last_digit = false; out.push(if c == ':' { '.' } else { c }); }
+    }
+    out.chars().take(48).collect()
+}
 
 /// `all <d> <hex>`: the `PacketReader` iterator to exhaustion.  Monitors: no panic; terminates within
 /// len + 1 calls; nothing is yielded after an error (a malformed datagram is dropped).
@@ -432,14 +440,14 @@ fn frames_line(sink: &mut Sink, pti: u64, input: &[u8]) {
         let mut rd = FrameReader::new(body, pt);
         let mut n = 0usize;
         loop {
-            if n > input.len() + 1 { bad.push(("hang:FrameReader".into(), format!("FrameReader still yields after {} steps", n))); break; }
+            if n > input.len() + 1 { bad.push(("hang:FrameReader".into(), format!("FrameReader still yields after {} steps", n))); items.push("HANG".into()); break; }
             n += 1;
             let before = rd.len();
             match rd.next() {
                 None => { items.push("end".into()); break; }
                 Some(Ok((f, _ty))) => {
                     let used = before.wrapping_sub(rd.len());
-                    if rd.len() >= before { bad.push(("consumed:FrameReader:zero".into(), format!("an Ok step left {} of {} bytes", rd.len(), before))); break; }
+                    if rd.len() >= before { bad.push(("consumed:FrameReader:zero".into(), format!("an Ok step left {} of {} bytes", rd.len(), before))); items.push("STUCK".into()); break; }
                     items.push(format!("ok used={} {}", used, c05::show(&f)));
                 }
                 Some(Err(e)) => {
@@ -461,7 +469,7 @@ fn frames_line(sink: &mut Sink, pti: u64, input: &[u8]) {
             for (k, w) in bad { sink.monitor_fail(&k, &format!("{} [frames {} {}]", w, ptn, hex(input))); }
             let last = items.last().cloned().unwrap_or_default();
             sink.branch(&format!("frames:{}", last.split(' ').take(2).collect::<Vec<_>>().join("_").split(':').next().unwrap()));
-            sink.branch(&format!("frames:n={}", (items.len() - 1).min(6)));
+            sink.branch(&format!("frames:n={}", items.len().saturating_sub(1).min(6)));
             sink.line(&op, &items.join(" | "));
         }
     }
